@@ -38,7 +38,7 @@ impl Property for C18 {
         "C18"
     }
     fn rule(&self) -> &'static str {
-        "profile `flow` with shadowing emphasis, 0-2 virtual signals (so the variable swap around virtual evaluation runs), X/C rows (several items share one evaluation), Z/X device answers in a third of the cases (virtual signals then make rows error items and the caller goes on), a malformed driver answer (an entry dropped or repeated, two entries swapped) to one call in a quarter of the cases (that row is an error item, the caller goes on). Every row statement carries a tag and two 64-bit probe inputs `(v)` for variables v definitely in scope there. The caller inspects vars() after every yielded row. Oracle (self-consistent, no reference values): with D = variables definitely in scope at that source row and P = variables that can be in scope there (lets at the level of an enclosing frame, enclosing counters) by an independent static scope analysis of the generating program: D is a subset of keys(vars()) which is a subset of P (so variables of ended loops, device outputs and virtual signals are absent), and for each probed v, vars()[v] equals the value the crate itself evaluated `(v)` to in that row (the innermost binding). Non-trivial: some inspected row has a shadowed name in scope, or follows an ended loop, or is an expansion item other than the first; distinct by source + signals + driver."
+        "profile `flow` with shadowing emphasis, 0-2 virtual signals (so the variable swap around virtual evaluation runs), X/C rows (several items share one evaluation), Z/X device answers in a third of the cases (virtual signals then make rows error items and the caller goes on), a malformed driver answer (an entry dropped or repeated, two entries swapped) to one call in a quarter of the cases (that row is an error item, the caller goes on). Every row statement carries a tag and two 64-bit probe inputs `(v)` for variables v definitely in scope there. The caller inspects vars() after every yielded row. Oracle (self-consistent, no reference values): with D = variables definitely in scope at that source row and P = variables that can be in scope there (lets at the level of an enclosing frame, enclosing counters) by an independent static scope analysis of the generating program: D is a subset of keys(vars()) which is a subset of P (so variables of ended loops, device outputs and virtual signals are absent), and for each probed v, vars()[v] equals the value the crate itself evaluated `(v)` to in that row (the innermost binding). In a third of the cases `let zc = v0;` / `loop(zc, m)` / row / `end loop` / row (v0 in {0, 1, 3}, zc bound nowhere else) is planted at a top-level position: inside that loop vars()[zc] is the number of the pass (strictly increasing over the rows that are seen), and from the row after the loop on vars()[zc] = v0 (known values, so a shadowed binding that is written through is seen). Non-trivial: some inspected row has a shadowed name in scope, or follows an ended loop, or is an expansion item other than the first; distinct by source + signals + driver."
     }
     fn cases(&self, tier: Tier) -> u64 {
         match tier {
@@ -47,13 +47,40 @@ impl Property for C18 {
         }
     }
     fn required_classes(&self) -> Vec<&'static str> {
-        vec!["shadowed-name-in-scope", "row-after-loop-end", "expansion-item>0", "declare", "var-named-like-output", "vars-after-error-item", "vars-after-malformed-answer", "probe-checked", "row-in-loop"]
+        vec!["shadowed-name-in-scope", "row-after-loop-end", "expansion-item>0", "declare", "var-named-like-output", "vars-after-error-item", "vars-after-malformed-answer", "probe-checked", "row-in-loop", "planted-shadowing-loop-checked", "planted-shadowed-binding-checked"]
     }
     fn run(&self, s: &Streams) -> CaseOut {
         let mut out = CaseOut::new();
         let cfg = vars_cfg();
         let mut built = gen_case(&mut Ch::new(&s[0]), &cfg);
-        let scopes = instrument(&mut built, &mut Ch::new(&s[1]), 2, ProbePref::Vars, &[]);
+        // In a third of the cases a construct with known values is planted at a top-level
+        // position: `let zc = v0;` / `loop(zc, m)` / row / `end loop` / row. `zc` is bound nowhere
+        // else, so inside the loop it is the pass number and from the row after the loop on it
+        // is v0 again, whatever else the program does.
+        let mut lch = Ch::new(&s[1]);
+        let mut planted: Option<(usize, usize, i64)> = None;
+        let mut planted_m = 0i64;
+        if lch.chance(1, 3) {
+            let v0 = *lch.choose(&[0i64, 1, 3]);
+            let m = 2 + lch.upto(2) as u64;
+            let id_in = built.prog.row_count();
+            let id_after = id_in + 1;
+            let lit_row = |cols: &[Col]| -> Vec<Entry> {
+                cols.iter().map(|c| if c.role == ColRole::ExpectedOnly { Entry::X(true) } else { Entry::Num(0, Radix::Dec) }).collect()
+            };
+            let at = lch.upto(built.prog.stmts.len() + 1);
+            let new = vec![
+                Stmt::Let("zc".into(), Expr::lit(v0 as u64)),
+                Stmt::Loop("zc".into(), Expr::lit(m), vec![Stmt::Row(id_in, lit_row(&built.cols))]),
+                Stmt::Row(id_after, lit_row(&built.cols)),
+            ];
+            for (k, st) in new.into_iter().enumerate() {
+                built.prog.stmts.insert(at + k, st);
+            }
+            planted = Some((id_in, id_after, v0));
+            planted_m = m as i64;
+        }
+        let scopes = instrument(&mut built, &mut lch, 2, ProbePref::Vars, &[]);
         let text = built_text(&built);
         let mut dch = Ch::new(&s[2]);
         let mut spec = gen_spec(
@@ -97,6 +124,8 @@ impl Property for C18 {
         let mut seen_error = false;
         let mut definite_trusted = true;
         let mut seen_malformed = false;
+        let mut planted_passes = 0i64;
+        let mut after_planted = false;
         for (i, item) in real.items.iter().enumerate() {
             let row = match item {
                 RealItem::Row(r) => r,
@@ -127,6 +156,35 @@ impl Property for C18 {
             let Some(Some(vars)) = real.vars.get(i) else { continue };
             let Some(InVal::Val(tag)) = row.inputs.iter().find(|e| e.0 == "TAG").map(|e| e.1) else { continue };
             let Some(sc) = scopes.get(&((tag - 1) as usize)) else { continue };
+            // the planted construct: known values
+            if let Some((id_in, id_after, v0)) = planted {
+                let rid = (tag - 1) as usize;
+                if rid == id_in {
+                    // (an expansion cannot occur: the planted rows hold literals only)
+                    // (a pass whose row became an error item is not seen here: the counter values
+                    // that are seen must be strictly increasing pass numbers)
+                    out.class("planted-shadowing-loop-checked");
+                    let ok = matches!(vars.get("zc"), Some(z) if *z >= planted_passes && *z < planted_m);
+                    if !ok {
+                        out.fail(
+                            "c18:shadowing-counter-value",
+                            format!("after item {i}: a pass of the planted `let zc = {v0}; loop(zc, {planted_m})`: vars()[zc] = {:?}, must be the number of the pass (at least {planted_passes} here, below {planted_m})", vars.get("zc")),
+                        );
+                        return out;
+                    }
+                    planted_passes = vars["zc"] + 1;
+                } else if rid == id_after || after_planted {
+                    after_planted = true;
+                    out.class("planted-shadowed-binding-checked");
+                    if vars.get("zc") != Some(&v0) {
+                        out.fail(
+                            "c18:shadowed-binding-not-restored",
+                            format!("after item {i} (source row #{rid}, after the planted `let zc = {v0}; loop(zc, ..) .. end loop`): vars()[zc] = {:?}; the loop has ended, the binding it shadowed is visible again with its own value {v0}", vars.get("zc")),
+                        );
+                        return out;
+                    }
+                }
+            }
             out.class_if(seen_error, "vars-after-error-item");
             out.class_if(seen_malformed, "vars-after-malformed-answer");
             out.class_if(sc.depth > 0, "row-in-loop");
